@@ -557,7 +557,11 @@ MboxCatalogue == {
   INBOX \o <<32>>, INBOX \o <<97>>,                       \* not INBOX
   <<305, 110, 98, 111, 120>>, <<304, 78, 66, 79, 88>>,    \* dotless i / dotted I: not INBOX
   <<97, 38, 98>>, <<38, 65, 79, 107, 45>>,                \* a&b, the text "&AOk-"
-  <<233, 8364, 128512>>, <<97, 47, 233, 32, 34, 92>> }
+  <<233, 8364, 128512>>, <<97, 47, 233, 32, 34, 92>>,
+  \* long names (more than 128 octets of UTF-8: whatever a transformer does differently once its buffers are full)
+  [i \in 1..60 |-> 26085],
+  <<65, 114, 99, 104, 105, 118, 101, 47>> \o [i \in 1..50 |-> 26085 + (i % 3)] \o <<47, 50, 48, 50, 52>>,
+  [i \in 1..127 |-> 97] \o <<233, 233, 8364>> \o [i \in 1..10 |-> 98] }
 FlagCatalogue == {
   <<92, 83, 101, 101, 110>>, <<92, 115, 101, 101, 110>>, <<92, 83, 69, 69, 78>>,    \* \Seen \seen \SEEN
   <<83, 101, 101, 110>>,                                                           \* Seen (a keyword)
